@@ -678,9 +678,6 @@ fn cmd_dual(a: &Args) -> i32 {
             r.ops += ops as u64;
         });
         hashes.insert(trace);
-        if runner::with(|r| r.violations.len()) >= 50 {
-            break;
-        }
     }
     runner::count("dual.executions", execs);
     runner::count("distinct_nontrivial", hashes.len() as u64);
